@@ -395,3 +395,263 @@ Proof.
     + apply in_map. apply (proj2 (in_unique idx3_ltb idx3_eqb idx3_eqb_eq _ _)). apply in_map. exact Hr0.
     + subst t. apply row_tri_perm. apply sort3_perm.
 Qed.
+
+(* ------------------------------------------------------------------ selections and the two representations *)
+Lemma nth_error_map_nth {A B} (f : A -> B) (l : list A) (d : A) i :
+  (i < length l)%nat -> nth_error (map f l) i = Some (f (nth i l d)).
+Proof.
+  revert i. induction l as [|x l IH]; intros i H; cbn in H; [lia|].
+  destruct i; cbn; [reflexivity|]. apply IH. lia.
+Qed.
+
+Lemma a_for_indexes_triangles (A : @atri ROps) (sel : list nat) :
+  Forall (fun i => (i < length (fst A))%nat) sel ->
+  map Some (a_triangles (a_for_indexes A sel)) = map (nth_error (a_triangles A)) sel.
+Proof.
+  intros H. unfold a_for_indexes. rewrite reindex_triangles. unfold a_triangles. rewrite !map_map.
+  apply map_ext_in. intros i Hi. rewrite Forall_forall in H.
+  symmetry. apply nth_error_map_nth. apply H. exact Hi.
+Qed.
+
+Lemma c_tri_params {O : NumOps} (h : T O) (S1 S2 : cs O) c :
+  c_side S1 = c_side S2 -> c_xoff S1 = c_xoff S2 -> c_yoff S1 = c_yoff S2 -> c_flipped S1 = c_flipped S2 ->
+  c_tri h S1 c = c_tri h S2 c.
+Proof. intros E1 E2 E3 E4. unfold c_tri, c_centre. rewrite E1, E2, E3, E4. reflexivity. Qed.
+
+Lemma c_for_indexes_triangles {O : NumOps} (h : T O) (S : cs O) (sel : list nat) :
+  Forall (fun i => (i < length (c_coords S))%nat) sel ->
+  map Some (c_triangles h (c_for_indexes S sel)) = map (nth_error (c_triangles h S)) sel.
+Proof.
+  intros H. unfold c_triangles. cbn [c_for_indexes c_coords]. rewrite !map_map.
+  apply map_ext_in. intros i Hi. rewrite Forall_forall in H.
+  rewrite (nth_error_map_nth _ _ (0, 0)%Z) by (apply H; exact Hi).
+  apply f_equal. apply c_tri_params; reflexivity.
+Qed.
+
+Lemma c_representations_agree (h : T ROps) (S : cs ROps) :
+  a_triangles (c_with_vertices h S (snd (c_repr h S))) = c_triangles h S.
+Proof.
+  unfold c_with_vertices. rewrite <- surjective_pairing. unfold c_repr. apply reindex_triangles.
+Qed.
+
+Lemma c_repr_idx_ok (h : T ROps) (S : cs ROps) r :
+  In r (fst (c_repr h S)) ->
+  (i0 r < length (snd (c_repr h S)) /\ i1 r < length (snd (c_repr h S)) /\ i2 r < length (snd (c_repr h S)))%nat.
+Proof. apply reindex_idx_ok. Qed.
+
+Lemma in_where_from (l : list bool) : forall k i,
+  In i (where_from k l) <-> exists j, i = (k + j)%nat /\ nth_error l j = Some true.
+Proof.
+  induction l as [|b l IH]; intros k i; cbn [where_from].
+  - split; [intros []|intros [j [_ H]]; destruct j; discriminate].
+  - destruct b.
+    + cbn [In]. rewrite IH. split.
+      * intros [H|[j [E H]]]; [exists 0%nat; split; [lia|reflexivity]|exists (S j); split; [lia|exact H]].
+      * intros [[|j] [E H]]; [left; lia|right; exists j; split; [lia|exact H]].
+    + rewrite IH. split.
+      * intros [j [E H]]. exists (S j). split; [lia|exact H].
+      * intros [[|j] [E H]]; [discriminate|exists j; split; [lia|exact H]].
+Qed.
+
+Lemma in_where_true (l : list bool) i : In i (where_true l) <-> nth_error l i = Some true.
+Proof.
+  unfold where_true. rewrite in_where_from. split; [intros [j [-> H]]; exact H|intros H; exists i; auto].
+Qed.
+
+Lemma a_containing_spec {O : NumOps} (A : @atri O) (s : shape O) i :
+  In i (a_containing A s) <-> exists t, nth_error (a_triangles A) i = Some t /\ shape_mask s t = true.
+Proof.
+  unfold a_containing. rewrite in_where_true, nth_error_map.
+  destruct (nth_error (a_triangles A) i) as [t|]; cbn [option_map].
+  - split; [intros H; exists t; split; congruence|intros [t' [E H]]; congruence].
+  - split; [discriminate|intros [t' [E _]]; discriminate].
+Qed.
+
+Lemma c_containing_spec (h : T ROps) (S : cs ROps) (s : shape ROps) i :
+  In i (c_containing h S s) <-> exists t, nth_error (c_triangles h S) i = Some t /\ shape_mask s t = true.
+Proof. unfold c_containing. rewrite a_containing_spec, c_representations_agree. reflexivity. Qed.
+
+(* ------------------------------------------------------------------ the integer-lattice representation *)
+Lemma pair_eq {A B} (a a' : A) (b b' : B) : a = a' -> b = b' -> (a, b) = (a', b').
+Proof. intros -> ->. reflexivity. Qed.
+
+Lemma parity_shift (x y k : Z) : ((2 * x + 2 * y + k) mod 2 = k mod 2)%Z.
+Proof. replace (2 * x + 2 * y + k)%Z with (k + (x + y) * 2)%Z by ring. apply Z_mod_plus_full. Qed.
+
+Lemma flip_child (x y dx dy : Z) :
+  flip_of true (zadd (dbl (x, y)) (dx, dy)) = Z.even (dx + dy).
+Proof.
+  unfold flip_of, zadd, dbl. cbn [fst snd].
+  replace (2 * x + dx + (2 * y + dy))%Z with (2 * x + 2 * y + (dx + dy))%Z by ring.
+  rewrite parity_shift, Zmod_even. destruct (Z.even (dx + dy)); reflexivity.
+Qed.
+
+Ltac ptri_eq := apply triple_eq; apply pair_eq; change (T ROps) with R; field.
+Ltac tri_perm_solve :=
+  unfold tri_perm;
+  first [ left; solve [ptri_eq] | right; left; solve [ptri_eq] | right; right; left; solve [ptri_eq]
+        | right; right; right; left; solve [ptri_eq] | right; right; right; right; left; solve [ptri_eq]
+        | right; right; right; right; right; solve [ptri_eq] ].
+
+Lemma flip_dbl (x y : Z) : flip_of true (dbl (x, y)) = true.
+Proof.
+  unfold flip_of, dbl. cbn [fst snd]. replace (2 * x + 2 * y)%Z with (2 * x + 2 * y + 0)%Z by ring.
+  rewrite parity_shift. reflexivity.
+Qed.
+
+Ltac csimp :=
+  unfold c_tri, c_centre, flip_sign, zadd, dbl;
+  cbn [c_up_sample c_flipped c_side c_xoff c_yoff fst snd];
+  rsimp; rewrite ?plus_IZR, ?mult_IZR, ?opp_IZR.
+
+Lemma coord_children_geometry (h : T ROps) (S : cs ROps) (c : zpt) :
+  let S' := c_up_sample h S in
+  let t := c_tri h S c in
+  Forall2 tri_perm (map (c_tri h S') (lattice_children (flip_of (c_flipped S) c) c))
+          (if flip_of (c_flipped S) c then [child_d t; child_b t; child_a t; child_c t]
+           else [child_c t; child_a t; child_b t; child_d t]).
+Proof.
+  destruct c as [x y]. destruct S as [cs s xo yo fl]. cbn zeta. cbn [c_flipped].
+  unfold lattice_children.
+  destruct (flip_of fl (x, y)) eqn:D; cbn [map]; (constructor; [|constructor; [|constructor; [|constructor; [|constructor]]]]).
+  all: unfold c_tri at 1; cbn [c_up_sample c_flipped]; rewrite ?flip_child, ?flip_dbl; cbn [Z.even Z.add Z.opp Pos.add Pos.succ Z.pos_sub Pos.pred_double Z.succ_double Z.pred_double Z.double].
+  all: unfold c_tri; cbn [c_flipped]; rewrite ?D.
+  all: csimp.
+  all: tri_perm_solve.
+Qed.
+
+Lemma flip_neighbour (fl : bool) (c : zpt) (dx dy : Z) :
+  Z.even (dx + dy) = false -> flip_of fl (zadd c (dx, dy)) = negb (flip_of fl c).
+Proof.
+  intros H. destruct c as [x y]. unfold flip_of, zadd. cbn [fst snd].
+  replace (x + dx + (y + dy))%Z with ((x + y) + (dx + dy))%Z by ring.
+  rewrite !Zmod_even, Z.even_add, H. destruct (Z.even (x + y)), fl; reflexivity.
+Qed.
+
+Lemma coord_neighbours_geometry (h : T ROps) (S : cs ROps) (c : zpt) :
+  let t := c_tri h S c in
+  Forall2 tri_perm (map (c_tri h S) (lattice_neighbours (flip_of (c_flipped S) c) c))
+          (if flip_of (c_flipped S) c then [t; refl1 t; refl2 t; refl0 t] else [t; refl2 t; refl1 t; refl0 t]).
+Proof.
+  destruct c as [x y]. destruct S as [cs s xo yo fl]. cbn zeta. cbn [c_flipped].
+  unfold lattice_neighbours.
+  destruct (flip_of fl (x, y)) eqn:D; cbn [map]; (constructor; [|constructor; [|constructor; [|constructor; [|constructor]]]]).
+  all: try (unfold tri_perm; destruct (c_tri _ _ _) as [[a b] d]; left; reflexivity).
+  all: unfold c_tri at 1; cbn [c_flipped]; rewrite flip_neighbour by reflexivity; rewrite D; cbn [negb].
+  all: unfold c_tri; cbn [c_flipped]; rewrite ?D.
+  all: csimp.
+  all: tri_perm_solve.
+Qed.
+
+(* ---- list level ---- *)
+Lemma Forall2_in_l {A B} (R : A -> B -> Prop) l1 l2 x :
+  Forall2 R l1 l2 -> In x l1 -> exists y, In y l2 /\ R x y.
+Proof.
+  induction 1 as [|a b l1 l2 H HF IH]; intros Hx; [destruct Hx|].
+  destruct Hx as [->|Hx]; [exists b; cbn; auto|]. destruct (IH Hx) as [y [Hy Hr]]. exists y. cbn. auto.
+Qed.
+Lemma Forall2_in_r {A B} (R : A -> B -> Prop) l1 l2 y :
+  Forall2 R l1 l2 -> In y l2 -> exists x, In x l1 /\ R x y.
+Proof.
+  induction 1 as [|a b l1 l2 H HF IH]; intros Hy; [destruct Hy|].
+  destruct Hy as [->|Hy]; [exists a; cbn; auto|]. destruct (IH Hy) as [x [Hx Hr]]. exists x. cbn. auto.
+Qed.
+
+Lemma in_map_filter {A B} (f : A -> B) (p : A -> bool) l y :
+  In y (map f (filter p l)) <-> exists x, In x l /\ p x = true /\ y = f x.
+Proof.
+  rewrite in_map_iff. split.
+  - intros [x [E H]]. apply filter_In in H. exists x. intuition.
+  - intros [x [H [P E]]]. exists x. split; auto. apply filter_In. auto.
+Qed.
+
+Lemma c_up_coords_members {O : NumOps} (h : T O) (S : cs O) c' :
+  In c' (c_coords (c_up_sample h S)) <->
+  exists c, In c (c_coords S) /\ In c' (lattice_children (flip_of (c_flipped S) c) c).
+Proof.
+  cbn [c_up_sample c_coords]. rewrite !in_app_iff.
+  rewrite <- !(map_id (filter _ (c_coords S))) at 1.
+  rewrite !in_map_filter. unfold lattice_children. split.
+  - intros [[H|[H|[H|H]]]|[H|[H|[H|H]]]]; destruct H as [c [Hc [P E]]]; exists c; split; auto;
+      try (apply negb_true_iff in P); rewrite P; subst c'; cbn; auto.
+  - intros [c [Hc H]]. destruct (flip_of (c_flipped S) c) eqn:P; cbn [In] in H.
+    + right. destruct H as [H|[H|[H|[H|[]]]]]; subst c'.
+      * left. exists c. auto.
+      * right; left. exists c. auto.
+      * right; right; left. exists c. auto.
+      * right; right; right. exists c. auto.
+    + left. destruct H as [H|[H|[H|[H|[]]]]]; subst c'.
+      * left. exists c. rewrite P. auto.
+      * right; left. exists c. rewrite P. auto.
+      * right; right; left. exists c. rewrite P. auto.
+      * right; right; right. exists c. rewrite P. auto.
+Qed.
+
+Lemma zpt_eqb_eq (p q : zpt) : zpt_eqb p q = true <-> p = q.
+Proof.
+  destruct p as [a b], q as [c d]. unfold zpt_eqb. cbn [fst snd].
+  rewrite andb_true_iff, !Z.eqb_eq. split; [intros [-> ->]; reflexivity|intros E; injection E; auto].
+Qed.
+
+Lemma c_nbr_coords_members {O : NumOps} (S : cs O) c' :
+  In c' (c_coords (c_neighborhood S)) <->
+  exists c, In c (c_coords S) /\ In c' (lattice_neighbours (flip_of (c_flipped S) c) c).
+Proof.
+  cbn [c_neighborhood c_coords]. rewrite (in_unique zpt_ltb zpt_eqb zpt_eqb_eq). rewrite !in_app_iff.
+  rewrite <- !(map_id (filter _ (c_coords S))) at 1.
+  rewrite !in_map_filter. unfold lattice_neighbours. split.
+  - intros [[H|[H|[H|H]]]|[H|[H|[H|H]]]]; destruct H as [c [Hc [P E]]]; exists c; split; auto;
+      try (apply negb_true_iff in P); rewrite P; subst c'; cbn; auto.
+  - intros [c [Hc H]]. destruct (flip_of (c_flipped S) c) eqn:P; cbn [In] in H.
+    + right. destruct H as [H|[H|[H|[H|[]]]]]; subst c'.
+      * left. exists c. auto.
+      * right; left. exists c. auto.
+      * right; right; left. exists c. auto.
+      * right; right; right. exists c. auto.
+    + left. destruct H as [H|[H|[H|[H|[]]]]]; subst c'.
+      * left. exists c. rewrite P. auto.
+      * right; left. exists c. rewrite P. auto.
+      * right; right; left. exists c. rewrite P. auto.
+      * right; right; right. exists c. rewrite P. auto.
+Qed.
+
+Lemma c_up_sample_exact (h : T ROps) (S : cs ROps) :
+  same_triangle_set (c_triangles h (c_up_sample h S)) (up_sample_triangles (c_triangles h S)).
+Proof.
+  unfold c_triangles. split.
+  - intros s Hs. apply in_map_iff in Hs. destruct Hs as [c' [Es Hc']].
+    apply c_up_coords_members in Hc'. destruct Hc' as [c [Hc Hin]].
+    pose proof (coord_children_geometry h S c) as G. cbn zeta in G.
+    destruct (Forall2_in_l _ _ _ s G) as [u [Hu Hp]]; [subst s; apply in_map; exact Hin|].
+    exists u. split; auto. apply up_sample_members. exists (c_tri h S c). split; [apply in_map; exact Hc|].
+    destruct (flip_of (c_flipped S) c); cbn [In] in Hu; intuition.
+  - intros u Hu. apply up_sample_members in Hu. destruct Hu as [t [Ht Hu]].
+    apply in_map_iff in Ht. destruct Ht as [c [Et Hc]]. subst t.
+    pose proof (coord_children_geometry h S c) as G. cbn zeta in G.
+    destruct (Forall2_in_r _ _ _ u G) as [s [Hs Hp]].
+    { destruct (flip_of (c_flipped S) c); cbn [In]; intuition. }
+    exists s. split; auto. apply in_map_iff in Hs. destruct Hs as [c' [Es Hc']].
+    apply in_map_iff. exists c'. split; auto. apply c_up_coords_members. exists c. auto.
+Qed.
+
+Lemma c_neighborhood_exact (h : T ROps) (S : cs ROps) :
+  same_triangle_set (c_triangles h (c_neighborhood S)) (neighborhood_triangles (c_triangles h S)).
+Proof.
+  unfold c_triangles. split.
+  - intros s Hs. apply in_map_iff in Hs. destruct Hs as [c' [Es Hc']].
+    apply c_nbr_coords_members in Hc'. destruct Hc' as [c [Hc Hin]].
+    pose proof (coord_neighbours_geometry h S c) as G. cbn zeta in G.
+    rewrite (c_tri_params h (c_neighborhood S) S c') in Es by reflexivity.
+    destruct (Forall2_in_l _ _ _ s G) as [u [Hu Hp]]; [subst s; apply in_map; exact Hin|].
+    exists u. split; auto. apply neighborhood_members. exists (c_tri h S c). split; [apply in_map; exact Hc|].
+    destruct (flip_of (c_flipped S) c); cbn [In] in Hu; intuition.
+  - intros u Hu. apply neighborhood_members in Hu. destruct Hu as [t [Ht Hu]].
+    apply in_map_iff in Ht. destruct Ht as [c [Et Hc]]. subst t.
+    pose proof (coord_neighbours_geometry h S c) as G. cbn zeta in G.
+    destruct (Forall2_in_r _ _ _ u G) as [s [Hs Hp]].
+    { destruct (flip_of (c_flipped S) c); cbn [In]; intuition. }
+    exists s. split; auto. apply in_map_iff in Hs. destruct Hs as [c' [Es Hc']].
+    apply in_map_iff. exists c'. split.
+    + rewrite (c_tri_params h (c_neighborhood S) S c') by reflexivity. exact Es.
+    + apply c_nbr_coords_members. exists c. auto.
+Qed.
